@@ -296,6 +296,15 @@ class BuiltinMixin:
             r = z3.Const(fresh_name("urandom"), B.S)
             st.define(B.Len(r) == z3.If(n < 0, I(0), n))
             return V(BYTES, r)
+        if full in ("google_crc32c.value", "crc32c"):
+            # external C function: uninterpreted, 32-bit result (A-EXT)
+            P = prelude()
+            f = P.func("crc32c", P.Bytes.S, Int)
+            d = self.need_value(args[0], st, node)
+            r = f(d.z)
+            st.pc.append(z3.And(r >= 0, r < 2 ** 32)) if not self.spec_mode else None
+            self.note_assumption("google_crc32c.value is an uninterpreted function with a 32-bit result")
+            return V(INT, r)
         if full == "time.time":
             r = fresh(REAL, "time")
             return r
